@@ -251,6 +251,8 @@ impl ProtocolState {
     requires old(self).wf(),
         old(self).operations@.contains_key(id) ==> resp_belongs(old(self).operations@[id], completion_result),
     ensures final(self).wf(),
+        // H1-H5 (DESIGN.md 2): removing an operation keeps them, the removed operation itself being exempt from "is located somewhere"
+        (hs_ok_but(*old(self), id) && unreferenced(*old(self), id)) ==> hs_ok(*final(self)),
         completion_frame(*old(self), *final(self)),
         !old(self).operations@.contains_key(id) ==> r is Err && tables_unchanged(*old(self), *final(self)) && final(self).state == old(self).state
             && final(self).slow_start_ack_count == old(self).slow_start_ack_count && final(self).next_ping_timepoint == old(self).next_ping_timepoint,
@@ -269,11 +271,15 @@ impl ProtocolState {
         proof {
             lemma_ss_set_remove(*old(self), *self, id);
         }
+//@@at after "self.apply_ackable_completion(&operation);"
+        proof { if hs_ok_but(*old(self), id) && unreferenced(*old(self), id) { lemma_hs_remove(*old(self), *self, id); } }
 //@end
 
 //@fn gneiss-mqtt/src/protocol.rs ProtocolState::complete_operation_as_failure props=C01,C06,C09,C11,C18
     requires old(self).wf(),
     ensures final(self).wf(),
+        // H1-H5 (DESIGN.md 2): removing an operation keeps them, the removed operation itself being exempt from "is located somewhere"
+        (hs_ok_but(*old(self), id) && unreferenced(*old(self), id)) ==> hs_ok(*final(self)),
         completion_frame(*old(self), *final(self)),
         final(self).next_ping_timepoint == old(self).next_ping_timepoint,
         !old(self).operations@.contains_key(id) ==> r is Ok && tables_unchanged(*old(self), *final(self)) && final(self).state == old(self).state
@@ -292,6 +298,8 @@ impl ProtocolState {
         proof {
             lemma_ss_set_remove(*old(self), *self, id);
         }
+//@@at after "self.apply_ackable_completion(&operation);"
+        proof { if hs_ok_but(*old(self), id) && unreferenced(*old(self), id) { lemma_hs_remove(*old(self), *self, id); } }
 //@end
 }
 
@@ -909,6 +917,8 @@ impl ProtocolState {
 //@fn gneiss-mqtt/src/protocol.rs ProtocolState::service_keep_alive props=C14,C11
     requires old(self).wf(), old(self).current_settings is Some, clock_ok(old(context).current_time), opid_budget(*old(self), 1),
     ensures final(self).wf(),
+        // (only ever called on an established connection)
+        (hs_ok(*old(self)) && old(self).state == ProtocolStateType::Connected) ==> hs_ok(*final(self)),
         final(context).current_time == old(context).current_time, final(context).to_socket@ == old(context).to_socket@,
         ({
             let pre = *old(self);
@@ -938,6 +948,20 @@ impl ProtocolState {
         }),
 //@@finding F-KEEPALIVE
         proof { assume(old(self).current_settings->Some_0.server_keep_alive % 2 == 0); }
+//@@at before "Ok(())"
+        proof {
+            if hs_ok(*old(self)) && old(self).state == ProtocolStateType::Connected {
+                let pre = *old(self); let post = *self; let oid = pre.next_operation_id;
+                assert forall|i: int| 0 <= i < post.resubmit_operation_queue@.len() && post.operations@.contains_key(#[trigger] post.resubmit_operation_queue@[i])
+                    implies *post.operations@[post.resubmit_operation_queue@[i]].packet is Publish by {
+                    assert(pre.resubmit_operation_queue@[i] < oid);
+                }
+                assert forall|k: u64| #[trigger] post.operations@.contains_key(k) && post.operations@[k].packet_id is Some implies
+                    (post.current_operation == Some(k) || in_flight(post, k) || post.resubmit_operation_queue@.contains(k) || post.user_operation_queue@.contains(k)) by {
+                    if pre.operations@.contains_key(k) && k != oid { assert(post.operations@[k] == pre.operations@[k]); if in_flight(pre, k) { assert(in_flight(post, k)); } }
+                }
+            }
+        }
 //@end
 }
 
@@ -986,8 +1010,10 @@ impl ProtocolState {
         // an ackable packet is only ever encoded after acquire_packet_id_for_operation bound it
         ({ let op = old(self).operations@[old(self).current_operation->Some_0]; takes_packet_id(*op.packet) ==> op.packet_id is Some }),
         old(self).state == ProtocolStateType::Connected || old(self).state == ProtocolStateType::PendingConnack,
-        old(self).state == ProtocolStateType::PendingConnack ==> !(*old(self).operations@[old(self).current_operation->Some_0].packet is Disconnect),
+        // before CONNACK only the CONNECT is ever written (W7)
+        old(self).state == ProtocolStateType::PendingConnack ==> *old(self).operations@[old(self).current_operation->Some_0].packet is Connect,
     ensures final(self).wf(), final(self).cur_ok(),
+        hs_ok(*old(self)) ==> hs_ok(*final(self)),
         final(self).current_operation is None,
         ({
             let pre = *old(self);
@@ -1029,11 +1055,35 @@ impl ProtocolState {
             let id0 = old(self).current_operation->Some_0;
             assert(self.ss_set() =~= old(self).ss_set());
         }
+//@@at bodyend
+        proof {
+            if hs_ok(*old(self)) {
+                let pre = *old(self); let post = *self; let id0 = pre.current_operation->Some_0;
+                assert(resubmit_only_publishes(post));
+                assert forall|k: u64| #[trigger] post.operations@.contains_key(k) && post.operations@[k].packet_id is Some implies
+                    (post.current_operation == Some(k) || in_flight(post, k) || post.resubmit_operation_queue@.contains(k) || post.user_operation_queue@.contains(k)) by {
+                    assert(pre.operations@.contains_key(k));
+                    if k == id0 { assert(in_flight(post, k)); } else { assert(pre.operations@[k] == post.operations@[k]); if in_flight(pre, k) { assert(in_flight(post, k)); } }
+                }
+                assert(bound_located(post));
+                if pre.state == ProtocolStateType::PendingConnack {
+                    assert(op_ack_timeout(pre.operations@[id0]) is None);
+                    assert(ack_deadline(pre, id0, now) is None);
+                    assert(nothing_in_flight(post));
+                    assert(pre.pending_write_completion_operations@.len() == 0 && pre.high_priority_operation_queue@.len() == 0);
+                    assert(post.pending_write_completion_operations@ == seq![id0]);
+                    assert(is_connect_op(post, id0));
+                    assert(connect_only(post));
+                }
+                assert(hs_quiet(post));
+            }
+        }
 //@end
 
 //@fn gneiss-mqtt/src/protocol.rs ProtocolState::process_ack_timeouts props=C18,C11,C01
     requires old(self).wf(),
     ensures final(self).wf(),
+        hs_ok(*old(self)) ==> hs_ok(*final(self)),
         completion_frame_but_timeouts(*old(self), *final(self)),
         // "never earlier": whatever was failed had a record whose deadline had passed
         forall|k: u64| old(self).operations@.contains_key(k) && !final(self).operations@.contains_key(k) ==>
@@ -1067,6 +1117,7 @@ impl ProtocolState {
             forall|x: Reverse<OperationTimeoutRecord>| (#[trigger] hh(old(self).operation_ack_timeouts, x) && x.0.timeout.nanos <= old(self).current_time.nanos
                 && old(self).current_operation == Some(x.0.id)) ==> (hh(self.operation_ack_timeouts, x) || self.current_operation_ack_timeout_elapsed),
             old(self).cur_ok() ==> self.cur_ok(),
+            hs_ok(*old(self)) ==> hs_ok(*self),
         ensures
             forall|y: Reverse<OperationTimeoutRecord>| #[trigger] hh(self.operation_ack_timeouts, y) ==> y.0.timeout.nanos > self.current_time.nanos,
         decreases heap_view(self.operation_ack_timeouts).len(),
@@ -1080,6 +1131,21 @@ impl ProtocolState {
                 assert forall|y: Reverse<OperationTimeoutRecord>| y != top && #[trigger] hh(pre_pop.operation_ack_timeouts, y) implies hh(self.operation_ack_timeouts, y) by {}
                 assert(hh(pre_pop.operation_ack_timeouts, top));
                 assert(hh(old(self).operation_ack_timeouts, top) && top.0.id == id && top.0.timeout.nanos <= old(self).current_time.nanos);
+                // an armed timeout means a connection is up: H3-H5 say nothing there, H1/H2 do not mention the heap
+                if hs_ok(pre_pop) {
+                    assert(pre_pop.state != ProtocolStateType::Disconnected && pre_pop.state != ProtocolStateType::PendingConnack);
+                    assert(hs_ok(*self));
+                }
+            }
+            let ghost after_pop = *self;
+//@@at after "result = fold_mqtt_result(result, self.complete_operation_as_failure(id, GneissError::new_ack_timeout()));"
+            proof {
+                if hs_ok(pre_pop) {
+                    assert(hh(pre_pop.operation_ack_timeouts, heap_top(pre_pop.operation_ack_timeouts)->Some_0));
+                    assert(pre_pop.state != ProtocolStateType::Disconnected && pre_pop.state != ProtocolStateType::PendingConnack);
+                    assert(after_pop.state == pre_pop.state && hs_ok(after_pop));
+                    lemma_hs_remove(after_pop, *self, id);
+                }
             }
 //@end
 }
@@ -1125,6 +1191,7 @@ impl ProtocolState {
     requires sq_pre(*old(self), *old(context)),
         mode == ProtocolQueueServiceMode::HighPriorityOnly <==> old(self).state == ProtocolStateType::PendingConnack,
     ensures final(self).wf(),
+        hs_ok(*old(self)) ==> hs_ok(*final(self)),
         r is Ok ==> final(self).cur_ok(),
         old(context).to_socket@.is_prefix_of(final(context).to_socket@),
         final(context).current_time == old(context).current_time,
@@ -1157,7 +1224,40 @@ impl ProtocolState {
             self.next_operation_id == old(self).next_operation_id,
             (old(self).pending_write_completion && old(self).current_operation is None) ==> context.to_socket@ == old(context).to_socket@ && self.current_operation is None,
             !(old(self).state == ProtocolStateType::PendingConnack || old(self).state == ProtocolStateType::Connected) ==> context.to_socket@ == old(context).to_socket@ && *self == *old(self),
+            hs_ok(*old(self)) ==> hs_ok(*self),
         decreases queue_measure(*self),
+//@@at before "self.current_operation = self.dequeue_operation(mode);"
+                let ghost head = *self;
+//@@at after "self.current_operation = self.dequeue_operation(mode);"
+                proof {
+                    // the id that left its queue is the one being written now; everything else stays where it was
+                    if hs_ok(head) {
+                        if let Some(c) = self.current_operation {
+                            assert forall|k: u64| #[trigger] self.operations@.contains_key(k) && self.operations@[k].packet_id is Some implies
+                                (self.current_operation == Some(k) || in_flight(*self, k) || self.resubmit_operation_queue@.contains(k) || self.user_operation_queue@.contains(k)) by {
+                                if k != c {
+                                    if head.resubmit_operation_queue@.contains(k) && !self.resubmit_operation_queue@.contains(k) {
+                                        let i = choose|i: int| 0 <= i < head.resubmit_operation_queue@.len() && head.resubmit_operation_queue@[i] == k;
+                                        assert(i >= 1); assert(self.resubmit_operation_queue@[i - 1] == k);
+                                    }
+                                    if head.user_operation_queue@.contains(k) && !self.user_operation_queue@.contains(k) {
+                                        let i = choose|i: int| 0 <= i < head.user_operation_queue@.len() && head.user_operation_queue@[i] == k;
+                                        assert(i >= 1); assert(self.user_operation_queue@[i - 1] == k);
+                                    }
+                                }
+                            }
+                            assert(hs_ok(*self));
+                        }
+                    }
+                }
+//@@at after "self.acquire_packet_id_for_operation(current_operation_id)?;"
+                proof {
+                    if hs_ok(*old(self)) {
+                        assert forall|k: u64| #[trigger] self.operations@.contains_key(k) && self.operations@[k].packet_id is Some implies
+                            (self.current_operation == Some(k) || in_flight(*self, k) || self.resubmit_operation_queue@.contains(k) || self.user_operation_queue@.contains(k)) by {}
+                        assert(hs_ok(*self));
+                    }
+                }
 //@end
 }
 
@@ -1170,6 +1270,7 @@ impl ProtocolState {
     requires sq_pre(*old(self), *old(context)),
         mode == ProtocolQueueServiceMode::HighPriorityOnly <==> old(self).state == ProtocolStateType::PendingConnack,
     ensures final(self).wf(),
+        hs_ok(*old(self)) ==> hs_ok(*final(self)),
         r is Ok ==> final(self).cur_ok(),
         old(context).to_socket@.is_prefix_of(final(context).to_socket@),
         final(context).current_time == old(context).current_time,
@@ -1193,6 +1294,7 @@ impl ProtocolState {
 //@fn gneiss-mqtt/src/protocol.rs ProtocolState::service_pending_connack props=C07,C11
     requires sq_pre(*old(self), *old(context)), old(self).state == ProtocolStateType::PendingConnack,
     ensures final(self).wf(), r is Ok ==> final(self).cur_ok(),
+        hs_ok(*old(self)) ==> hs_ok(*final(self)),
         old(context).to_socket@.is_prefix_of(final(context).to_socket@),
         // no CONNACK by the establishment deadline => connection error, nothing written
         old(context).current_time.nanos >= old(self).connack_timeout_timepoint->Some_0.nanos ==>
@@ -1205,6 +1307,7 @@ impl ProtocolState {
 //@fn gneiss-mqtt/src/protocol.rs ProtocolState::service_pending_disconnect props=C07,C18,C11
     requires old(self).wf(),
     ensures final(self).wf(),
+        hs_ok(*old(self)) ==> hs_ok(*final(self)),
         // C07: once the DISCONNECT has been written nothing further is sent
         final(_arg1).to_socket@ == old(_arg1).to_socket@,
         final(self).state == old(self).state || final(self).state == ProtocolStateType::Halted,
@@ -1215,6 +1318,7 @@ impl ProtocolState {
 //@fn gneiss-mqtt/src/protocol.rs ProtocolState::service_connected props=C11
     requires sq_pre(*old(self), *old(context)), old(self).state == ProtocolStateType::Connected, opid_budget(*old(self), 1),
     ensures final(self).wf(),
+        hs_ok(*old(self)) ==> hs_ok(*final(self)),
         old(context).to_socket@.is_prefix_of(final(context).to_socket@),
         // keep-alive failure is reported before anything is written
         (old(self).ping_timeout_timepoint matches Some(pt) && old(context).current_time.nanos >= pt.nanos) ==> r is Err && final(context).to_socket@ == old(context).to_socket@,
@@ -1226,6 +1330,7 @@ impl ProtocolState {
 //@fn gneiss-mqtt/src/protocol.rs ProtocolState::service props=C11,C07,C08
     requires sq_pre(*old(self), *old(context)), opid_budget(*old(self), 1),
     ensures final(self).wf(),
+        hs_ok(*old(self)) ==> hs_ok(*final(self)),
         old(context).to_socket@.is_prefix_of(final(context).to_socket@),
         // every error from an entry point switches to Halted ...
         r is Err ==> final(self).state == ProtocolStateType::Halted,
@@ -1355,6 +1460,7 @@ impl ProtocolState {
 //@fn gneiss-mqtt/src/protocol.rs ProtocolState::handle_network_event_connection_opened props=C07,C11
     requires old(self).wf(), opid_budget(*old(self), 1), context.event is ConnectionOpened,
     ensures final(self).wf(),
+        hs_ok(*old(self)) ==> hs_ok(*final(self)),
         ({
             let pre = *old(self);
             let post = *final(self);
@@ -1737,6 +1843,8 @@ impl ProtocolState {
     requires old(self).wf(), iterator.obeys_prophetic_iter_laws(), iterator.decrease() is Some,
         forall|u: ()| error_fn.requires(u),
     ensures final(self).wf(),
+        // H1-H5: kept, provided none of the listed operations is the CONNECT a queue still refers to during the handshake
+        (hs_ok(*old(self)) && (forall|i: int| 0 <= i < iterator.remaining().len() ==> unreferenced(*old(self), #[trigger] iterator.remaining()[i]))) ==> hs_ok(*final(self)),
         completion_frame(*old(self), *final(self)),
         final(self).next_ping_timepoint == old(self).next_ping_timepoint,
         shrunk(*old(self), *final(self)),
@@ -1760,6 +1868,7 @@ impl ProtocolState {
                 !old(self).ss_active() ==> self.slow_start_ack_count == old(self).slow_start_ack_count,
                 self.config == old(self).config,
                 (old(self).cur_ok() && (old(self).current_operation matches Some(c) ==> !all.contains(c))) ==> self.cur_ok(),
+                (hs_ok(*old(self)) && (forall|i: int| 0 <= i < all.len() ==> unreferenced(*old(self), #[trigger] all[i]))) ==> hs_ok(*self),
             ensures all == consumed,
             decreases it.decrease()->Some_0,
 //@@at before "let mut it = (iterator).into_iter();"
@@ -2320,6 +2429,8 @@ impl ProtocolState {
         forall|i: int| 0 <= i < iterator.remaining().len() ==> (old(self).operations@.contains_key(#[trigger] iterator.remaining()[i])
             ==> !takes_packet_id(*old(self).operations@[iterator.remaining()[i]].packet)),
     ensures final(self).wf(),
+        // H1-H5: kept, provided none of the listed operations is the CONNECT a queue still refers to during the handshake
+        (hs_ok(*old(self)) && (forall|i: int| 0 <= i < iterator.remaining().len() ==> unreferenced(*old(self), #[trigger] iterator.remaining()[i]))) ==> hs_ok(*final(self)),
         completion_frame(*old(self), *final(self)),
         shrunk(*old(self), *final(self)),
         // exactly the listed operations are completed: each of them is gone, nothing else is
@@ -2339,6 +2450,7 @@ impl ProtocolState {
                 !old(self).ss_active() ==> self.slow_start_ack_count == old(self).slow_start_ack_count,
                 self.config == old(self).config,
                 (old(self).cur_ok() && (old(self).current_operation matches Some(c) ==> !all.contains(c))) ==> self.cur_ok(),
+                (hs_ok(*old(self)) && (forall|i: int| 0 <= i < all.len() ==> unreferenced(*old(self), #[trigger] all[i]))) ==> hs_ok(*self),
             ensures all == consumed,
             decreases it.decrease()->Some_0,
 //@@at before "let mut it = (iterator).into_iter();"
@@ -2622,6 +2734,7 @@ impl ProtocolState {
 //@@rewrite "completions.iter().copied()" => "(completions.into_iter()).into_iter()"
     requires old(self).wf(),
     ensures final(self).wf(),
+        hs_ok(*old(self)) ==> hs_ok(*final(self)),
         // a write completion nobody is waiting for, or in a state that writes nothing, is an error
         (old(self).state == ProtocolStateType::Halted || old(self).state == ProtocolStateType::Disconnected) ==> r is Err && *final(self) == *old(self),
         (old(self).state != ProtocolStateType::Halted && old(self).state != ProtocolStateType::Disconnected && !old(self).pending_write_completion)
@@ -2640,6 +2753,108 @@ impl ProtocolState {
             },
 //@end
 
+}
+
+// =====================================================================================================
+// "where things are" (discharges A-HANDSHAKE): an entry-point invariant next to wf, kept OUT of wf because the close handler and
+// session handling break it on purpose in mid-flight (they empty a table and then re-queue its operations one by one).
+//   H1  the retransmission queue holds only publishes
+//   H2  an operation that holds a packet id is the one being written, in flight, or waiting in the retransmission / user queue
+//   H3  between connections and during the handshake nothing is in flight and no ack timeout is armed
+//   H4  between connections nothing is queued for writing ahead of user operations, nothing awaits a flush, nothing is half written
+//   H5  during the handshake the only thing written, half written or awaiting its flush is the CONNECT
+// =====================================================================================================
+pub open spec fn in_flight(s: ProtocolState, k: u64) -> bool {
+    s.operations@[k].packet_id matches Some(p) && (s.pending_publish_operations@.contains_key(p) || s.pending_non_publish_operations@.contains_key(p))
+}
+pub open spec fn bound_located(s: ProtocolState) -> bool {
+    forall|k: u64| #[trigger] s.operations@.contains_key(k) && s.operations@[k].packet_id is Some ==>
+        s.current_operation == Some(k) || in_flight(s, k) || s.resubmit_operation_queue@.contains(k) || s.user_operation_queue@.contains(k)
+}
+pub open spec fn connect_only(s: ProtocolState) -> bool {
+    let n_hp = s.high_priority_operation_queue@.len();
+    let n_wc = s.pending_write_completion_operations@.len();
+    let n_cur: nat = if s.current_operation is Some { 1 } else { 0 };
+    // the CONNECT is in at most one place, and nothing else is in any of them
+    &&& n_hp + n_wc + n_cur <= 1
+    &&& (n_hp == 1 ==> is_connect_op(s, s.high_priority_operation_queue@[0]))
+    &&& (n_wc == 1 ==> is_connect_op(s, s.pending_write_completion_operations@[0]))
+    &&& (s.current_operation matches Some(c) ==> is_connect_op(s, c))
+}
+pub open spec fn nothing_in_flight(s: ProtocolState) -> bool {
+    &&& s.pending_publish_operations@ == Map::<u16, u64>::empty() && s.pending_non_publish_operations@ == Map::<u16, u64>::empty()
+    &&& heap_view(s.operation_ack_timeouts) == Multiset::<Reverse<OperationTimeoutRecord>>::empty()
+}
+pub open spec fn hs_quiet(s: ProtocolState) -> bool {
+    &&& ((s.state == ProtocolStateType::Disconnected || s.state == ProtocolStateType::PendingConnack) ==> nothing_in_flight(s) && !s.current_operation_ack_timeout_elapsed)
+    &&& (s.state == ProtocolStateType::Disconnected ==> s.high_priority_operation_queue@.len() == 0 && s.pending_write_completion_operations@.len() == 0 && s.current_operation is None)
+    &&& (s.state == ProtocolStateType::PendingConnack ==> connect_only(s))
+}
+// (ids waiting for retransmission were handed out earlier: a new operation can never collide with a stale entry)
+pub open spec fn resubmit_known(s: ProtocolState) -> bool {
+    forall|i: int| 0 <= i < s.resubmit_operation_queue@.len() ==> #[trigger] s.resubmit_operation_queue@[i] < s.next_operation_id
+}
+pub open spec fn hs_ok(s: ProtocolState) -> bool { resubmit_only_publishes(s) && resubmit_known(s) && bound_located(s) && hs_quiet(s) }
+// the same with one operation exempt from H2 (an operation that has just left its place and is about to be completed)
+pub open spec fn hs_ok_but(s: ProtocolState, x: u64) -> bool {
+    &&& resubmit_only_publishes(s) && resubmit_known(s) && hs_quiet(s)
+    &&& forall|k: u64| k != x && #[trigger] s.operations@.contains_key(k) && s.operations@[k].packet_id is Some ==>
+            s.current_operation == Some(k) || in_flight(s, k) || s.resubmit_operation_queue@.contains(k) || s.user_operation_queue@.contains(k)
+}
+// during the handshake the operation being removed must not be the CONNECT a queue still refers to
+pub open spec fn unreferenced(s: ProtocolState, id: u64) -> bool {
+    s.state == ProtocolStateType::PendingConnack ==> !s.high_priority_operation_queue@.contains(id) && !s.pending_write_completion_operations@.contains(id)
+        && s.current_operation != Some(id)
+}
+
+// H1-H5 give the three preconditions of session handling once the CONNECT has left the queue
+pub proof fn lemma_hs_gives_handshake(s: ProtocolState)
+    requires s.wf(), hs_ok(s), s.state == ProtocolStateType::PendingConnack, !connect_unsent(s),
+    ensures handshake_quiet(s), resubmit_only_publishes(s), bound_ops_queued(s),
+{
+    if s.high_priority_operation_queue@.len() == 1 { assert(is_connect_op(s, s.high_priority_operation_queue@[0])); }
+    if s.pending_write_completion_operations@.len() == 1 { assert(is_connect_op(s, s.pending_write_completion_operations@[0])); }
+}
+
+// completing / failing one operation keeps H1-H5 (during the handshake: unless it is the CONNECT still referenced by a queue)
+pub proof fn lemma_hs_remove(pre: ProtocolState, post: ProtocolState, id: u64)
+    requires pre.wf(), hs_ok_but(pre, id),
+        pre.operations@.contains_key(id) ==> removed_exactly(pre, post, id),
+        !pre.operations@.contains_key(id) ==> tables_unchanged(pre, post),
+        post.user_operation_queue@ == pre.user_operation_queue@, post.resubmit_operation_queue@ == pre.resubmit_operation_queue@,
+        post.high_priority_operation_queue@ == pre.high_priority_operation_queue@,
+        post.pending_write_completion_operations@ == pre.pending_write_completion_operations@,
+        post.current_operation == pre.current_operation, post.next_operation_id == pre.next_operation_id,
+        post.state == pre.state || post.state == ProtocolStateType::Halted,
+        (pre.state == ProtocolStateType::Disconnected || pre.state == ProtocolStateType::PendingConnack) ==>
+            post.operation_ack_timeouts == pre.operation_ack_timeouts && post.current_operation_ack_timeout_elapsed == pre.current_operation_ack_timeout_elapsed,
+        unreferenced(pre, id),
+    ensures hs_ok(post),
+{
+    if pre.operations@.contains_key(id) {
+        assert forall|k: u64| #[trigger] post.operations@.contains_key(k) && post.operations@[k].packet_id is Some implies
+            (post.current_operation == Some(k) || in_flight(post, k) || post.resubmit_operation_queue@.contains(k) || post.user_operation_queue@.contains(k)) by {
+            assert(pre.operations@.contains_key(k) && k != id);
+            if in_flight(pre, k) {
+                let p = pre.operations@[k].packet_id->Some_0;
+                // ids are unique (W2): the removed operation's id is a different one
+                if pre.operations@[id].packet_id == Some(p) { pre.lemma_bound_ids_unique(k, id); }
+                assert(in_flight(post, k));
+            }
+        }
+        assert forall|i: int| 0 <= i < post.resubmit_operation_queue@.len() && post.operations@.contains_key(#[trigger] post.resubmit_operation_queue@[i])
+            implies *post.operations@[post.resubmit_operation_queue@[i]].packet is Publish by {
+            assert(pre.operations@.contains_key(pre.resubmit_operation_queue@[i]));
+        }
+        if post.state == ProtocolStateType::Disconnected || post.state == ProtocolStateType::PendingConnack {
+            assert(post.pending_publish_operations@ =~= Map::<u16, u64>::empty());
+            assert(post.pending_non_publish_operations@ =~= Map::<u16, u64>::empty());
+        }
+        if post.state == ProtocolStateType::PendingConnack {
+            if pre.high_priority_operation_queue@.len() == 1 { assert(pre.high_priority_operation_queue@.contains(pre.high_priority_operation_queue@[0])); }
+            if pre.pending_write_completion_operations@.len() == 1 { assert(pre.pending_write_completion_operations@.contains(pre.pending_write_completion_operations@[0])); }
+        }
+    }
 }
 
 // what must be true of the engine when a CONNACK is accepted (A-HANDSHAKE; see apply_session_present_to_connection)
@@ -2724,6 +2939,7 @@ impl ProtocolState {
             UserEvent::Disconnect(p) => *p is Disconnect,
         },
     ensures final(self).wf(),
+        hs_ok(*old(self)) ==> hs_ok(*final(self)),
         old(self).cur_ok() ==> final(self).cur_ok(),
         ({
             let pre = *old(self);
@@ -2745,6 +2961,52 @@ impl ProtocolState {
             &&& post.pending_non_publish_operations@ == pre.pending_non_publish_operations@
             &&& post.current_operation == pre.current_operation
         }),
+//@@at after "assert_ne!(op_id, 0);"
+        let ghost created = *self;
+        proof {
+            if hs_ok(*old(self)) {
+                let pre = *old(self);
+                assert(op_id == pre.next_operation_id && !pre.operations@.contains_key(op_id));
+                assert forall|i: int| 0 <= i < self.resubmit_operation_queue@.len() && self.operations@.contains_key(#[trigger] self.resubmit_operation_queue@[i])
+                    implies *self.operations@[self.resubmit_operation_queue@[i]].packet is Publish by {
+                    assert(pre.resubmit_operation_queue@[i] < op_id);
+                }
+                assert forall|k: u64| #[trigger] self.operations@.contains_key(k) && self.operations@[k].packet_id is Some implies
+                    (self.current_operation == Some(k) || in_flight(*self, k) || self.resubmit_operation_queue@.contains(k) || self.user_operation_queue@.contains(k)) by {
+                    if k != op_id { assert(self.operations@[k] == pre.operations@[k]); if in_flight(pre, k) { assert(in_flight(*self, k)); } }
+                }
+                if pre.state == ProtocolStateType::PendingConnack {
+                    if pre.high_priority_operation_queue@.len() == 1 { assert(is_connect_op(pre, pre.high_priority_operation_queue@[0])); }
+                    if pre.pending_write_completion_operations@.len() == 1 { assert(is_connect_op(pre, pre.pending_write_completion_operations@[0])); }
+                    assert(connect_only(*self));
+                    assert(unreferenced(*self, op_id)) by {
+                        if self.high_priority_operation_queue@.contains(op_id) { assert(self.high_priority_operation_queue@[0] == op_id); }
+                        if self.pending_write_completion_operations@.contains(op_id) { assert(self.pending_write_completion_operations@[0] == op_id); }
+                    }
+                }
+                assert(hs_ok(*self));
+            }
+        }
+//@@at before "self.enqueue_operation(op_id, queue, position);"
+        proof {
+            if hs_ok(*old(self)) {
+                assert(*self == created);
+            }
+        }
+//@@at after "self.enqueue_operation(op_id, queue, position);"
+        proof {
+            if hs_ok(*old(self)) {
+                assert forall|k: u64| #[trigger] self.operations@.contains_key(k) && self.operations@[k].packet_id is Some implies
+                    (self.current_operation == Some(k) || in_flight(*self, k) || self.resubmit_operation_queue@.contains(k) || self.user_operation_queue@.contains(k)) by {
+                    if created.user_operation_queue@.contains(k) {
+                        let i = choose|i: int| 0 <= i < created.user_operation_queue@.len() && created.user_operation_queue@[i] == k;
+                        if queue == ProtocolQueueType::User { assert(self.user_operation_queue@[i] == k); }
+                    }
+                    if in_flight(created, k) { assert(in_flight(*self, k)); }
+                }
+                assert(hs_ok(*self));
+            }
+        }
 //@end
 
 //@fn gneiss-mqtt/src/protocol.rs ProtocolState::is_connect_packet props=C11,C07
